@@ -24,11 +24,17 @@ func frontEndNoEvolution(f string) bool {
 
 func schemaFiles(f string) bool { return strings.HasSuffix(f, "/pkg/dsl/protocolschema.go") }
 
+func evoScope(p string) bool { return p == core.Mod+"/pkg/dsl" }
+
+func evolutionFiles(f string) bool { return strings.Contains(f, "/pkg/dsl/evolution") }
+
 func dslValidationFiles(f string) bool {
 	return strings.Contains(f, "/pkg/dsl/validation") || strings.HasSuffix(f, "/pkg/dsl/yaml.go")
 }
 
 func init() {
+	reg("C05", ruleInverseInvolution, ruleWrapperRecursion, ruleChangeKindsConsumed, ruleEndStream)
+	reg("C06", ruleWrapperRecursion, ruleChangeKindsConsumed, ruleChangeDataUsed, ruleE3(evoScope, "E3"), ruleE2(evoScope, "E2"), ruleE5(evoScope, "E5"), ruleMapOrderScoped, rulePrunesPartial(evolutionFiles, "V5", 3))
 	reg("C04", ruleOneSchemaFunction, ruleMarshalCoverage, ruleSchemaCanonical, rulePrunes(schemaFiles, "V5", 2), ruleStateMachineSchemaCheck)
 	reg("C01", rulePlan, ruleRecordOrder, ruleDirectionDuality, ruleCppPrimitiveFamilies, ruleStepFraming, ruleEmptyBatchGuard, ruleEndStream)
 	reg("C16", ruleEndStream, ruleStepFraming)
